@@ -182,7 +182,7 @@ hypothesis `CastFinite` of `to_float_correctly_rounded`.
 property text and a scratch worktree (from round 2 on they were told which files earlier rounds had
 used and asked for shared helpers, narrow instantiations, single boundary values, cooperating sites,
 rarely used overloads and operand kinds; rounds 4 and 5, written against the machinery of round 3,
-were the hardest: 29 of the 60 round-4 changes and 16 of the 33 round-5 changes were missed at first); each was confirmed here
+were the hardest: 31 of the 61 round-4 changes and 14 of the 33 round-5 changes were missed at first); each was confirmed here
 (patch applies, the demonstration passes without it and fails with it; the unit suite was re-run
 here with the change for as many as the time allowed - see `unit_suite` in each `meta.json` - and by
 the writer of the change for all of them) and is kept under `seeded/<id>/`; `seeded/README.md` is the full table
